@@ -122,7 +122,7 @@ Definition run (x : sx) : sx :=
   | L (A 1 :: A std :: L threads :: _) => L [L (map (run_thread (Z.eqb std 1)) threads)]
   (* a trace recorded for one state of the fixes (flag = f_recheck + 2 * f_skiplock) is only meaningful in that state *)
   | L (L labs :: L (B _ :: A flag :: _) :: _) =>
-      if Z.eqb flag ((if f_recheck tls_flags then 1 else 0) + (if f_skiplock tls_flags then 2 else 0)) then run_trace labs else L [A 777]
+      if Z.eqb flag ((if f_recheck tls_flags then 1 else 0) + (if f_skiplock tls_flags then 2 else 0) + (if f_lazyread tls_flags then 4 else 0)) then run_trace labs else L [A 777]
   | L (L labs :: _) =>
       do ls <- map_opt dec_lab labs;
       let '(y, acts) := sys_run tls_flags sys0 ls in
